@@ -403,7 +403,7 @@ theorem never_accepted_after_key_change (r k : Key) (h : keyValid r k = true) :
     r.uuid = k.uuid ∧ r.partition = k.partition ∧ r.mode = k.mode ∧ r.select = k.select ∧
     r.disable = k.disable ∧ r.define = k.define ∧ r.builders.isSuperset k.builders = true ∧
     r.apps.isSuperset k.apps = true ∧ k.namesKnown = true ∧
-    (k.partition ≠ none → k.builders.isSuperset r.builders = true ∧ k.apps.isSuperset r.apps = true) := by
+    (k.partition ≠ none → Selector.sameSeq r.builders k.builders = true ∧ k.apps.isSuperset r.apps = true) := by
   simp only [keyValid, Bool.and_eq_true, beq_iff_eq] at h
   obtain ⟨⟨⟨⟨⟨⟨⟨⟨⟨h1, h2⟩, h3⟩, h4⟩, h5⟩, h6⟩, h7⟩, h8⟩, h9⟩, h10⟩ := h
   refine ⟨h1, h2, h5, h6, h7, h8, h3, h4, h9, ?_⟩
@@ -411,7 +411,7 @@ theorem never_accepted_after_key_change (r k : Key) (h : keyValid r k = true) :
   simp only [partitionOk, Selector.sameSet, Bool.or_eq_true, Bool.and_eq_true, Option.isNone_iff_eq_none] at h10
   rcases h10 with h10 | h10
   · exact absurd h10 hp
-  · exact ⟨h10.1.2, h10.2.2⟩
+  · exact ⟨h10.1, h10.2.2⟩
 
 /-- a request naming a builder/app the project does not have is never served from the cache -/
 theorem unknown_names_never_hit (s : State) (k : Key) (h : k.namesKnown = false) : hit s k = false := by
@@ -440,8 +440,17 @@ theorem Selector.isSuperset_refl (a : Selector) : a.isSuperset a = true := by
   | all => rfl
   | some l => simp [Selector.isSuperset]
 
+theorem sameSeq_refl (a : Selector) : Selector.sameSeq a a = true := by
+  cases a with
+  | all => rfl
+  | some l => simp [Selector.sameSeq]
+
+/-- the same sequence of builder names means the same list (what `selectedBuilders` maps over) -/
+theorem sameSeq_eq {a b : Selector} (h : Selector.sameSeq a b = true) : a = b := by
+  cases a <;> cases b <;> simp_all [Selector.sameSeq]
+
 theorem keyValid_self_iff (k : Key) : keyValid k k = true ↔ k.namesKnown = true := by
-  simp [keyValid, partitionOk, Selector.sameSet, Selector.isSuperset_refl]
+  simp [keyValid, partitionOk, Selector.sameSet, Selector.isSuperset_refl, sameSeq_refl]
 
 theorem keyValid_refl (k : Key) (hk : k.namesKnown = true) : keyValid k k = true :=
   (keyValid_self_iff k).2 hk
